@@ -7,6 +7,7 @@ from ..core import Acc, Viol, jhash
 from .. import pk, gen, cmp
 
 ID = 'C08'
+HORIZON_S = 1800   # one case = one input under all its transformations
 LEVEL = 'model_checking'
 LEVEL_TEXT = ('Every multi-conformation layout of a bounded alphabet (a peptide whose middle residue takes, per '
               'conformation, one of {ASP, displaced ASP, ALA point mutant, ASP without side chain, absent}; conformations '
